@@ -76,7 +76,8 @@ type frame struct {
 	defers      []func()
 	phiOverride map[*ssa.Phi]Val
 	fn    *ssa.Function
-	env   map[ssa.Value]Val
+	env   []Val
+	slots map[ssa.Value]int
 	block *ssa.BasicBlock
 	prev  *ssa.BasicBlock
 }
@@ -335,11 +336,11 @@ func (ex *Exec) get(fr *frame, v ssa.Value) Val {
 	case *ssa.Builtin:
 		return x
 	}
-	r, ok := fr.env[v]
+	i, ok := fr.slots[v]
 	if !ok {
-		panic(fmt.Sprintf("no value for %s (%T) in %s", v.Name(), v, fr.fn))
+		panic(fmt.Sprintf("no slot for %s (%T) in %s", v.Name(), v, fr.fn))
 	}
-	return r
+	return fr.env[i]
 }
 
 // ---------- call
@@ -367,12 +368,13 @@ func (ex *Exec) call(fn *ssa.Function, args []Val, env []Val) Val {
 		ex.end("violation", "call depth exceeds 400 (unbounded recursion) in "+fn.Name())
 	}
 	defer func() { ex.depth-- }()
-	fr := &frame{fn: fn, env: make(map[ssa.Value]Val, 32)}
+	slots := slotsOf(fn)
+	fr := &frame{fn: fn, env: make([]Val, len(slots)), slots: slots}
 	for i, p := range fn.Params {
-		fr.env[p] = args[i]
+		fr.env[slots[p]] = args[i]
 	}
 	for i, fv := range fn.FreeVars {
-		fr.env[fv] = env[i]
+		fr.env[slots[fv]] = env[i]
 	}
 	fr.block = fn.Blocks[0]
 	for {
@@ -443,44 +445,44 @@ func (ex *Exec) instr(fr *frame, in ssa.Instruction) {
 	switch x := in.(type) {
 	case *ssa.Phi:
 		if v, ok := fr.phiOverride[x]; ok {
-			fr.env[x] = v
+			fr.env[fr.slots[x]] = v
 			return
 		}
 		for i, p := range fr.block.Preds {
 			if p == fr.prev {
-				fr.env[x] = ex.get(fr, x.Edges[i])
+				fr.env[fr.slots[x]] = ex.get(fr, x.Edges[i])
 				return
 			}
 		}
 		panic("phi: no pred")
 	case *ssa.Alloc:
-		fr.env[x] = &PtrV{newObj(x.Type().Underlying().(*types.Pointer).Elem())}
+		fr.env[fr.slots[x]] = &PtrV{newObj(x.Type().Underlying().(*types.Pointer).Elem())}
 	case *ssa.BinOp:
-		fr.env[x] = ex.binop(x, ex.get(fr, x.X), ex.get(fr, x.Y))
+		fr.env[fr.slots[x]] = ex.binop(x, ex.get(fr, x.X), ex.get(fr, x.Y))
 	case *ssa.UnOp:
-		fr.env[x] = ex.unop(fr, x)
+		fr.env[fr.slots[x]] = ex.unop(fr, x)
 	case *ssa.ChangeType:
-		fr.env[x] = ex.get(fr, x.X)
+		fr.env[fr.slots[x]] = ex.get(fr, x.X)
 	case *ssa.Convert:
-		fr.env[x] = ex.convert(x, ex.get(fr, x.X))
+		fr.env[fr.slots[x]] = ex.convert(x, ex.get(fr, x.X))
 	case *ssa.Extract:
-		fr.env[x] = ex.get(fr, x.Tuple).(TupleV)[x.Index]
+		fr.env[fr.slots[x]] = ex.get(fr, x.Tuple).(TupleV)[x.Index]
 	case *ssa.FieldAddr:
 		p := ex.get(fr, x.X).(*PtrV)
 		if p.o == nil {
 			ex.rtpanic(x, "nil dereference")
 		}
-		fr.env[x] = &PtrV{p.o.sub[x.Field]}
+		fr.env[fr.slots[x]] = &PtrV{p.o.sub[x.Field]}
 	case *ssa.Field:
-		fr.env[x] = ex.get(fr, x.X).(*StructV).f[x.Field]
+		fr.env[fr.slots[x]] = ex.get(fr, x.X).(*StructV).f[x.Field]
 	case *ssa.IndexAddr:
-		fr.env[x] = ex.indexAddr(fr, x)
+		fr.env[fr.slots[x]] = ex.indexAddr(fr, x)
 	case *ssa.Index:
-		fr.env[x] = ex.index(fr, x)
+		fr.env[fr.slots[x]] = ex.index(fr, x)
 	case *ssa.Lookup:
-		fr.env[x] = ex.lookup(fr, x)
+		fr.env[fr.slots[x]] = ex.lookup(fr, x)
 	case *ssa.Slice:
-		fr.env[x] = ex.slice(fr, x)
+		fr.env[fr.slots[x]] = ex.slice(fr, x)
 	case *ssa.Store:
 		addr := ex.get(fr, x.Addr)
 		p, ok := addr.(*PtrV)
@@ -500,9 +502,9 @@ func (ex *Exec) instr(fr *frame, in ssa.Instruction) {
 		for _, b := range x.Bindings {
 			f.env = append(f.env, ex.get(fr, b))
 		}
-		fr.env[x] = f
+		fr.env[fr.slots[x]] = f
 	case *ssa.Call:
-		fr.env[x] = ex.doCall(fr, x)
+		fr.env[fr.slots[x]] = ex.doCall(fr, x)
 	case *ssa.MakeSlice:
 		n := int(ex.concretize(ex.get(fr, x.Len).(*Term)))
 		c := int(ex.concretize(ex.get(fr, x.Cap).(*Term)))
@@ -514,9 +516,9 @@ func (ex *Exec) instr(fr *frame, in ssa.Instruction) {
 		for i := 0; i < c; i++ {
 			s.arr = append(s.arr, newObj(et))
 		}
-		fr.env[x] = s
+		fr.env[fr.slots[x]] = s
 	case *ssa.MakeMap:
-		fr.env[x] = &MapV{m: map[string]Val{}}
+		fr.env[fr.slots[x]] = &MapV{m: map[string]Val{}}
 	case *ssa.MapUpdate:
 		m := ex.get(fr, x.Map).(*MapV)
 		k, ok := ex.get(fr, x.Key).(*StrV).concrete()
@@ -540,16 +542,16 @@ func (ex *Exec) instr(fr *frame, in ssa.Instruction) {
 		m.m[k] = ex.get(fr, x.Value)
 		m.byLen = nil
 	case *ssa.MakeInterface:
-		fr.env[x] = ex.get(fr, x.X)
+		fr.env[fr.slots[x]] = ex.get(fr, x.X)
 	case *ssa.TypeAssert:
 		v := ex.get(fr, x.X)
 		if x.CommaOk {
-			fr.env[x] = TupleV{v, BoolC(v != nil)}
+			fr.env[fr.slots[x]] = TupleV{v, BoolC(v != nil)}
 		} else {
 			if v == nil {
 				ex.rtpanic(x, "interface conversion: interface is nil")
 			}
-			fr.env[x] = v
+			fr.env[fr.slots[x]] = v
 		}
 	case *ssa.Defer:
 		cc := x.Common()
@@ -1226,4 +1228,29 @@ func objFromVal(v Val) *Obj {
 		return &Obj{v: &BuilderV{b: append([]*Term(nil), x.b...)}}
 	}
 	return &Obj{v: v}
+}
+
+var slotCache = map[*ssa.Function]map[ssa.Value]int{}
+
+// slotsOf numbers the parameters, free variables and value-defining instructions of fn (frame environments are slices).
+func slotsOf(fn *ssa.Function) map[ssa.Value]int {
+	if m, ok := slotCache[fn]; ok {
+		return m
+	}
+	m := map[ssa.Value]int{}
+	for _, p := range fn.Params {
+		m[p] = len(m)
+	}
+	for _, fv := range fn.FreeVars {
+		m[fv] = len(m)
+	}
+	for _, b := range fn.Blocks {
+		for _, in := range b.Instrs {
+			if v, ok := in.(ssa.Value); ok {
+				m[v] = len(m)
+			}
+		}
+	}
+	slotCache[fn] = m
+	return m
 }
